@@ -8,6 +8,7 @@ package lexer
 import (
 	"regexp"
 	"strings"
+	"unicode"
 	"unicode/utf8"
 )
 
@@ -81,8 +82,14 @@ func vhBackrefPattern(pattern string, groups []string) (string, bool, bool) {
 	return sb.String(), has, true
 }
 
+// "rules whose names start with a lower-case letter": the first character
+// of the name, not its first byte
 func vhIsLower(name string) bool {
-	return len(name) > 0 && name[0] >= 'a' && name[0] <= 'z'
+	if len(name) == 0 {
+		return false
+	}
+	r, _ := utf8.DecodeRuneInString(name)
+	return unicode.IsLower(r)
 }
 
 // vhRefLex lexes in with the reference semantics.  errOff is -1 when lexing
@@ -230,6 +237,10 @@ func vhC04(rules Rules) { vhC04In(rules, vhInput()) }
 
 func vhC04In(rules Rules, in string) {
 	_, toks, err := vhRunImpl(rules, in)
+	vhC04Toks(rules, in, toks, err)
+}
+
+func vhC04Toks(rules Rules, in string, toks []Token, err error) {
 	if err != nil {
 		vReach("error")
 		return
@@ -257,6 +268,27 @@ func vhC04In(rules Rules, in string) {
 	last := toks[len(toks)-1]
 	vAssert(last.EOF(), "C04: last token is not EOF")
 	vAssert(last.Pos.Offset == len(in), "C04: EOF is not positioned at the end of the input")
+}
+
+// vhC04Entry: the same obligations through every way of handing the input to
+// a definition (LexString, Lex from a reader), chosen by the solver,
+// on inputs that may start with a byte-order mark.
+func vhC04Entry(rules Rules) {
+	bom := []string{"", "\xef\xbb\xbf", "\xef\xbb", "\xfe\xff"}
+	in := bom[vChoose("prefix", len(bom))] + vString("in", vChoose("len", vhMaxInput))
+	def, derr := New(rules)
+	vAssert(derr == nil, "catalogue definition must be accepted by New")
+	var lex Lexer
+	var lerr error
+	switch vChoose("entry", 2) {
+	case 0:
+		lex, lerr = def.LexString("f", in)
+	default:
+		lex, lerr = def.Lex("f", strings.NewReader(in))
+	}
+	vAssert(lerr == nil, "C04: the definition refuses the input")
+	toks, err := ConsumeAll(lex)
+	vhC04Toks(rules, in, toks, err)
 }
 
 // vhC07Run: whole-run obligations from the initial state.
@@ -463,6 +495,16 @@ func VH_C03_LiteralMB() { vhC03(vhDefLiteralMB()) }
 func VH_C03_CaretAlt() { vhC03In(vhDefCaretAlt(), vhInputASCII()) }
 
 func VH_C03_Latin1Class() { vhC03(vhDefLatin1Class()) }
+
+func VH_C03_BackrefOptGroup() { vhC03In(vhDefBackrefOptGroup(), vhInputASCII()) }
+
+func VH_C03_NonASCIINames() { vhC03In(vhDefNonASCIINames(), vhInputASCII()) }
+
+func VH_C04_NonASCIINames() { vhC04In(vhDefNonASCIINames(), vhInputASCII()) }
+
+func VH_C04_Entry_DotAll() { vhC04Entry(vhDefDotAll()) }
+
+func VH_C04_Entry_LiteralMB() { vhC04Entry(vhDefLiteralMB()) }
 
 func VH_C03_Canary() {
 	in := vhInput()
